@@ -112,8 +112,14 @@ def c07_handleRange (j : Json) (op : String) (d : Nat) (dflt : Int) : Except Str
   -- spec: the slice as defined; claimed without a shortcut, or with a valid one
   let valid := match sp with | some i => validStart emp s e i l | none => true
   let srows := c07_rows d (stored (rangeSpec (fun ip => emp ip.2) s e (withPos l)))
+  -- the saved position: that of the last element the implementation yielded, if a shortcut was given
+  let lastPos : Option Int := match (asList y1).toOption.bind (·.getLast?) with
+    | some r => (match asList r with | .ok (_ :: p :: _) => p.getInt?.toOption | _ => none)
+    | none => none
+  let ssaved : Int := match sp with | none => old | some _ => lastPos.getD old
   let (spec, why2) := if valid then c07_and [
       (c07_same srows y1, "yields are not the named slice"),
+      (c07_same (jInt ssaved) saved, "saved position is not the position of the last yielded element"),
       (c07_same (treeToJson (d + 1) t) after, "fiber changed by a read-only traversal")]
     else (true, "")
   pure { agree, spec, model := mrows, why := if why1.isEmpty then why2 else why1,
@@ -333,6 +339,9 @@ def handleC07 (j : Json) : Except String Verdict := do
     | "corshape" | "coshape" | "coashape" | "corshaperef" | "coshaperef" | "coashaperef" => c07_handleCo j op d dflt
     | "project" | "prune" => c07_handleLazy j op d dflt
     | o => throw s!"C07: unknown op {o}")
-  pure { v with tags := (if v.tags.contains "OUT_OF_MODEL" then v.tags else s!"op:{op}" :: (if cfg.fmt == .U then "fmt:U" else "fmt:C") :: v.tags) }
+  let extra := [s!"op:{op}", if cfg.fmt == .U then "fmt:U" else "fmt:C", s!"depth:{d + 1}", s!"dflt:{dflt}",
+    fStrD j "kind" "free"] ++ (if cfg.shape.isSome then ["shape-declared"] else []) ++
+    (if cfg.active.isSome then ["active-set"] else [])
+  pure { v with tags := (if v.tags.contains "OUT_OF_MODEL" then v.tags else extra ++ v.tags) }
 
 end FtDriver
